@@ -159,6 +159,7 @@ SIMPLE = [
     S("match-as", ["match E({e1}, {p}):", "    case 0 | 1 as {n1}:", "        {n2} = E({e2}, {n1})", "    case {n1}:", "        {n2} = E({e3}, {n1})"], cur="n2", special=True),
     S("match-mapping", ["match DCT(E({e1}, {p})):", "    case {{**{n1}}}:", "        {n2} = E({e2}, len({n1}))"], cur="n2", special=True),
     S("mangled-read", "{n1} = E({e1}, K.__hid + {p})", cur="n1", flags=["inclass"], special=True),
+    S("mangled-read-under", "{n1} = E({e1}, _K.__hid + {p})", cur="n1", flags=["inclass", "under"], special=True),
     S("mangled-read-nested", "{n1} = E({e1}, K.__hid + {p})", cur="n1", flags=["inclass", "nested"], special=True),
     S("weird-eq", "{n1} = NOEQ(E({e1}, {p}))", special=True),
     S("return-yield", "return (yield E({e1}, {p}))", gen=True, special=True),
@@ -211,7 +212,7 @@ CORE3 = frozenset({"assign", "chain", "aug", "unpack-tuple", "unpack-star", "att
                    "yield-recv", "if", "if-else", "for", "for-else", "while", "try-except", "try-finally", "with",
                    "break", "continue", "del"})
 # the `odd` program set: every program contains at least one of ODD, the rest comes from ODD_BASE
-ODD = frozenset({"none-global-read", "weird-eq", "multiline-str", "mangled-read", "mangled-read-nested", "ann-raises", "nested-qualname",
+ODD = frozenset({"none-global-read", "weird-eq", "multiline-str", "mangled-read", "mangled-read-nested", "mangled-read-under", "ann-raises", "nested-qualname",
                  "match-seq", "match-guard", "match-as", "match-mapping", "sub-index-walrus", "default-walrus",
                  "class-base-walrus", "lambda-walrus", "lambda-yield", "with-two-dep", "return-yield", "arg-yield", "assert-yield", "sub-index-yield",
                  "default-yield", "ann-yield", "attr-yield", "for-list-target", "with-list-target", "for-yield-iter",
@@ -315,6 +316,9 @@ def render(lines, flags, tail=True, sig=None):
         return "def make(c):\n    kk = 3\n    kt = int\n" + "\n".join("    " + ln for ln in fn) + "\n" + share + "    return f\nf = make(10)\n"
     if "inclass" in flags:
         # f is defined in a class body: identifiers of the form __name inside it are mangled by the compiler
+        if "under" in flags:
+            # the class name starts with an underscore (the mangled prefix drops it)
+            return "class _K:\n    __hid = 40\n" + "\n".join("    " + ln for ln in fn) + "\nf = _K.f\n"
         if "nested" in flags:
             # ... also when f is a function nested in a function of the class
             return ("class K:\n    __hid = 40\n    def make():\n" + "\n".join("        " + ln for ln in fn)
@@ -359,6 +363,8 @@ def programs(size, tier, only=None, maxdepth=2, must=None, tails=(True,), sigs=(
                     continue
                 if "inclass" in ctx.flags and (sig or "closure" in ctx.flags):
                     continue
+                if len(ctx.flags & {"under", "nested"}) == 2 or (ctx.flags & {"under", "nested"} and "mangled-read" in forms):
+                    continue  # one placement per program
                 fl = ctx.flags | ({"sig:" + sig} if sig else set()) | ({"closure"} if sig in ("closure-default", "closure-annot") else set())
                 fm = forms + (() if tail else ("fall-off-end",)) + (("sig-" + sig,) if sig else ())
                 yield Prog(render(lines, ctx.flags, tail, sig), fm, frozenset(fl), used)
